@@ -1,5 +1,6 @@
 import Driver.Proto
 import XmlRsModel.AttrNorm
+import XmlRsModel.Concrete
 /-! Canonical dump of an `IDoc` — the same text the Rust harness produces from the real items. -/
 namespace Driver
 open XmlRs
@@ -122,5 +123,17 @@ def opRoundtrip (s : Str) : String :=
       let same := dumpDoc d1 == dumpDoc d2
       let fix := printDoc d2 == s1
       s!"ok rest2={e rest2} same={if same then 1 else 0} eq={if same then 1 else 0} fix={if fix then 1 else 0}"
+
+/-- does the round-trip theorem (Thm/C04 `print_parse_roundtrip`) speak about the document this text parses to?
+    profile: no XML declaration, no DOCTYPE; then each hypothesis of the theorem, evaluated -/
+def opThm04 (s : Str) : String :=
+  match parseDoc s with
+  | .error x => s!"err:{errClass x}"
+  | .ok (d, _) =>
+    match canonDoc d with
+    | none => "profile=0"
+    | some cd =>
+      let b (x : Bool) : Nat := if x then 1 else 0
+      s!"profile=1 ok={b cd.ok} faithful={b (d.kids.all faithfulTop)} depth={b (cd.root.depth ≤ Gen.Xml.maxDepth_element)} canon={b (printDoc d == cd.str)}"
 
 end Driver
